@@ -179,8 +179,12 @@ def build_runner():
                 os.remove(junk)
         if rc != 0:
             return False, o, exe
-        mls = ["model.mli", "model.ml", "util.ml"] + sorted(
-            os.path.basename(f) for f in glob.glob(os.path.join(RUNNER, "k_*.ml"))) + ["main.ml"]
+        for junk in glob.glob(os.path.join(RUNNER, "*.cm[iox]")) + glob.glob(os.path.join(RUNNER, "*.o")):
+            os.remove(junk)
+        ks = [os.path.basename(f) for f in glob.glob(os.path.join(RUNNER, "k_*.ml"))]
+        order = ["k_sess.ml", "k_viso.ml"]          # kinds other kinds build on come first
+        ks = [k for k in order if k in ks] + sorted(k for k in ks if k not in order)
+        mls = ["model.mli", "model.ml", "util.ml"] + ks + ["main.ml"]
         rc, o2 = sh(["ocamlfind", "ocamlopt", "-O2", "-w", "-a"] + mls + ["-o", "runner"], cwd=RUNNER, timeout=900)
         if rc != 0:
             return False, o + o2, exe
